@@ -27,37 +27,113 @@ ASSUMPTIONS = [
     "HashMap-backed store and index are modelled as association lists with unique keys",
     "the rustls handshake (ResolvesServerCert::resolve glue, default certificate), the https.rs listener glue and the 421 call site of the strict-SNI predicate are exercised by the black-box tiers only (real worker, real handshakes, H1 and H2 requests, counting backend), not by proof",
 ]
-TRUSTED = ["translator props/c17.py:translate pins add-before-remove and the idempotent short-circuit in replace_certificate, the stable sort + last() choice and the remove/insert re-pointing in lib/src/tls.rs"]
+TRUSTED = ["translator props/c17.py:translate reads (by meaning: locals free, comments ignored) the sort direction, the last() choice, the re-pointing, the two short-circuits, the name normalisation and the add-before-remove order in lib/src/tls.rs; unrecognised constructs fall back on the correspondence run (TRANSLATE_FALLBACK), except add-before-remove which nothing observes"]
 
 MAN = os.path.join(vlib.ROOT, "corpus", "certs", "c17", "manifest.json")
 
 
+TRANSLATE_FALLBACK = ("every fact read here except the add-before-remove order of replace_certificate is a behaviour of "
+                      "CertificateResolver that the driver observes after every history: which fingerprint each SNI of the pool "
+                      "resolves to (sort direction and last() = longest-lived; re-pointing on add; retain + re-insert on "
+                      "remove; duplicate-fingerprint and idempotent-replace short-circuits; a failing replace leaving every "
+                      "name served; names lower-cased / idna / '/'-filtered), on generated cases with equal expirations, "
+                      "shared names, removals of the currently served certificate, U-label, capital and '/' names; each of "
+                      "these facts, when changed, was seen to produce hundreds of model/driver disagreements and oracle "
+                      "violations in the quick batch")
+
+
+def _strip(src):
+    """comments out (strings of this file contain no //)"""
+    src = re.sub(r"/\*.*?\*/", "", src, flags=re.S)
+    return re.sub(r"//[^\n]*", "", src)
+
+
+def _fn_body(src, name):
+    """text of `fn <name>(...) ... { body }` (brace matched), or None"""
+    m = re.search(r"\bfn\s+%s\s*(<[^>]*>)?\s*\(" % re.escape(name), src)
+    if not m:
+        return None
+    i = src.find("{", m.end())
+    depth, j = 0, i
+    while 0 <= i and j < len(src):
+        if src[j] == "{":
+            depth += 1
+        elif src[j] == "}":
+            depth -= 1
+            if depth == 0:
+                return src[i + 1:j]
+        j += 1
+    return None
+
+
+def _fact(fails, body, where, what, ok, bad=()):
+    """a fact of the model read from `body`: some `ok` pattern found -> fine; a `bad` pattern found -> the source
+    says something else than the model (hard); neither -> the construct is not recognised (soft, see
+    TRANSLATE_FALLBACK)"""
+    if body is None:
+        fails.append("unreadable: %s: function not found (model assumes: %s)" % (where, what))
+        return
+    for pat in bad:
+        if re.search(pat, body, re.S):
+            fails.append("%s: %s -- the source now reads otherwise (/%s/)" % (where, what, pat))
+            return
+    if not any(re.search(pat, body, re.S) for pat in ok):
+        fails.append("unreadable: %s: cannot recognise the construct; the model assumes: %s" % (where, what))
+
+
 def translate():
+    """reads, by meaning, the facts of lib/src/tls.rs the model mirrors (identifiers of locals are free)"""
     fails = []
-    t = open(os.path.join(vlib.REPO, "lib/src/tls.rs")).read()
-    pins = [
-        (r"fingerprints_for_this_name\.sort_by_key\(\|t\| t\.1\);\s*let longest_lived_cert = match fingerprints_for_this_name\.last\(\)",
-         "add_certificate: no longer `sort_by_key(|t| t.1)` then `.last()`"),
-        (r"self\.domains\.remove\(&new_name\.to_owned\(\)\.into_bytes\(\)\);\s*self\.domains\.insert\(\s*new_name\.to_owned\(\)\.into_bytes\(\),\s*longest_lived_cert\.0\.to_owned\(\),",
-         "add_certificate: the trie is no longer re-pointed by remove + insert of the longest-lived"),
-        (r"if self\.certificates\.contains_key\(&cert_to_add\.fingerprint\) \{\s*return Ok\(cert_to_add\.fingerprint\);",
-         "add_certificate: duplicate-fingerprint early return changed"),
-        (r"entry\.get_mut\(\)\.retain\(\|t\| &t\.0 != fingerprint\);.*?if let Some\(longest_lived_cert\) = entry\.get\(\)\.last\(\) \{\s*self\.domains\s*\.insert\(name\.as_bytes\(\)\.to_vec\(\), longest_lived_cert\.0\.to_owned\(\)\);",
-         "remove_certificate: retain + re-insert of the next longest-lived changed"),
-        (r"if old_fingerprint == new_fingerprint \{.*?return Ok\(new_fingerprint\);", "replace_certificate: idempotent short-circuit is gone"),
-        (r"let new_fingerprint = self\.add_certificate\(&add\)\?;.*?Ok\(old_fingerprint\) => self\.remove_certificate\(&old_fingerprint\)\?,",
-         "replace_certificate: no longer add-before-remove"),
-        (r"let overriding_names: Vec<String> = overriding_names\s*\.into_iter\(\)\s*\.filter\(\|name\| !name\.contains\('/'\)\)\s*\.map\(\|name\| \{\s*::idna::domain_to_ascii\(&name\)\.unwrap_or_else\(\|_\| name\.to_ascii_lowercase\(\)\)",
-         "try_from: names are no longer filtered on '/' and kept in their ASCII (idna) form"),
-        (r"let new_cert = CertifiedKeyWrapper::try_from\(&add\)\?;", "replace_certificate: the new certificate is no longer parsed before anything is touched"),
-    ]
-    for pat, what in pins:
-        if not re.search(pat, t, re.S):
-            fails.append("lib/src/tls.rs: " + what)
-    m = re.search(r"let new_fingerprint = self\.add_certificate\(&add\)\?;", t)
-    r = re.search(r"Ok\(old_fingerprint\) => self\.remove_certificate\(&old_fingerprint\)\?", t)
-    if m and r and not m.start() < r.start():
-        fails.append("lib/src/tls.rs: replace_certificate removes before it adds")
+    try:
+        t = _strip(open(os.path.join(vlib.REPO, "lib/src/tls.rs")).read())
+    except OSError as ex:
+        return ["lib/src/tls.rs cannot be read: %r" % (ex,)]
+    add = _fn_body(t, "add_certificate")
+    rem = _fn_body(t, "remove_certificate")
+    rep = _fn_body(t, "replace_certificate")
+    tf = re.search(r"impl TryFrom<&AddCertificate> for CertifiedKeyWrapper \{(.*?)\n\}", t, re.S)
+    tf = tf.group(1) if tf else None
+    W = r"[A-Za-z_][A-Za-z0-9_]*"
+    _fact(fails, add, "tls.rs add_certificate", "candidates sorted by expiration, ascending",
+          ok=[r"\.sort_by_key\(\|%s\|\s*%s\.1\)" % (W, W), r"\.sort_by\(\|(%s), (%s)\|\s*\1\.1\.cmp\(&\2\.1\)\)" % (W, W),
+              r"\.sort_unstable_by_key\(\|%s\|\s*%s\.1\)" % (W, W)],
+          bad=[r"\.sort_by_key\(\|%s\|\s*(std::cmp::)?Reverse\(" % W, r"\.sort_by\(\|(%s), (%s)\|\s*\2\.1\.cmp\(&\1\.1\)\)" % (W, W)])
+    _fact(fails, add, "tls.rs add_certificate", "the longest-lived candidate is the LAST of the sorted list",
+          ok=[r"\.last\(\)", r"\.iter\(\)\s*\.next_back\(\)", r"\.iter\(\)\s*\.max_by_key\(\|%s\|\s*%s\.1\)" % (W, W)],
+          bad=[r"sort[^;]*;(?:(?!\.last\(\)).)*?\.first\(\)"])
+    _fact(fails, add, "tls.rs add_certificate", "the trie is re-pointed: domains.remove(name) then domains.insert(name, longest-lived)",
+          ok=[r"domains\s*\.(domain_)?remove\(.*?domains\s*\.(domain_)?insert\("])
+    _fact(fails, add, "tls.rs add_certificate", "a fingerprint already stored returns early without touching anything",
+          ok=[r"if\s+self\.certificates\.contains_key\(&%s(\.fingerprint)?\)\s*\{\s*return Ok\(" % W,
+              r"if\s+self\.certificates\.get\(&%s(\.fingerprint)?\)\.is_some\(\)\s*\{\s*return Ok\(" % W,
+              r"let\s+(%s)\s*=\s*self\.certificates\.contains_key\(&%s(\.fingerprint)?\);\s*if\s+\1\s*\{\s*return Ok\(" % (W, W)])
+    _fact(fails, rem, "tls.rs remove_certificate", "the removed fingerprint is filtered out of the name's candidates",
+          ok=[r"\.retain\(\|%s\|\s*&?%s\.0\s*!=\s*\*?%s\)" % (W, W, W), r"\.retain\(\|\(%s, _\)\|\s*%s\s*!=\s*%s\)" % (W, W, W),
+              r"\.retain\(\|%s\|\s*\*?%s\s*!=\s*&?%s\.0\)" % (W, W, W)],
+          bad=[r"\.retain\(\|%s\|\s*&?%s\.0\s*==" % (W, W)])
+    _fact(fails, rem, "tls.rs remove_certificate", "the next longest-lived candidate (last of the list) is re-inserted in the trie",
+          ok=[r"\.last\(\).*?domains\s*\.(domain_)?insert\(", r"\.next_back\(\).*?domains\s*\.(domain_)?insert\("],
+          bad=[r"retain(?:(?!\.last\(\)).)*?\.first\(\)(?:(?!\.last\(\)).)*?domains\s*\.(domain_)?insert\("])
+    _fact(fails, rep, "tls.rs replace_certificate", "idempotent replace (old fingerprint == new fingerprint) returns without touching the store",
+          ok=[r"if\s+%s\s*==\s*%s\s*\{.*?return Ok\(" % (W, W)],
+          bad=[r"if\s+%s\s*==\s*%s\s*(\|\||&&)[^{]*\{" % (W, W)])
+    _fact(fails, rep, "tls.rs replace_certificate", "the new certificate is parsed (errors out) before anything is touched",
+          ok=[r"CertifiedKeyWrapper::try_from\(&%s\)\?.*?self\.add_certificate\(" % W])
+    _fact(fails, tf, "tls.rs TryFrom<&AddCertificate>", "names containing '/' are dropped, the others kept in their idna ASCII form (lower-case fallback)",
+          ok=[r"\.filter\(\|%s\|\s*!%s\.contains\('/'\)\).*?idna::domain_to_ascii\(&?%s\).*?to_ascii_lowercase\(\)" % (W, W, W),
+              r"\.retain\(\|%s\|\s*!%s\.contains\('/'\)\).*?idna::domain_to_ascii\(&?%s\).*?to_ascii_lowercase\(\)" % (W, W, W)])
+    # NOT observable (both orders reach the same final state): add-before-remove inside replace_certificate. Read by
+    # position of the two calls (public method names); hard when it cannot be read.
+    if rep is None:
+        fails.append("lib/src/tls.rs: replace_certificate not found (add-before-remove cannot be established)")
+    else:
+        ia = re.search(r"self\s*\.add_certificate\(", rep)
+        ir = re.search(r"self\s*\.remove_certificate\(", rep)
+        if not ia or not ir:
+            fails.append("lib/src/tls.rs: replace_certificate: the calls self.add_certificate / self.remove_certificate cannot be "
+                         "located, so add-before-remove (replace_no_gap) is not established; nothing observes this fact")
+        elif ir.start() < ia.start():
+            fails.append("lib/src/tls.rs: replace_certificate removes the old certificate before it adds the new one (replace_no_gap)")
     return fails
 
 
